@@ -260,6 +260,10 @@ def hand_families():
         add("ext-values-unterminated", tgt, lambda n: "( 1.2 X-a ( " + "'b' " * (n // 4))
         add("ext-spaces", tgt, lambda n: "( 1.2 X-a" + " " * n + "'b' )")
         add("ext-name-long", tgt, lambda n: "( 1.2 X-" + "a-" * (n // 2) + " ")
+        add("ext-empty-lists", tgt, lambda n: "( 1.2" + " X-a (   )" * (n // 10) + " !")
+        add("ext-empty-list-spaces", tgt, lambda n: "( 1.2 X-a (" + " " * n + "!")
+        add("name-empty-list-spaces", tgt, lambda n: "( 1.2 NAME (" + " " * n + "!")
+        add("ext-lists-two-values", tgt, lambda n: "( 1.2" + " X-a ( 'b'  'c' )" * (n // 17) + " !")
     add("must-oidlist-bad-tail", "schema-oc", lambda n: "( 1.2 MUST ( " + "a $ " * (n // 4) + "! )")
     add("must-oidlist-spaces", "schema-oc", lambda n: "( 1.2 MUST ( a" + " " * n + "! )")
     add("sup-descr-long", "schema-oc", lambda n: "( 1.2 SUP " + "a" * n + "!")
@@ -318,9 +322,18 @@ def pump_family(r, kind):
     L = len(s)
     if L < 2:
         return None
-    i = r.randrange(0, L)
-    w = r.choice([1, 1, 2, 2, 3, 4, 6])
-    j = min(L, i + w)
+    if isinstance(s, str) and r.random() < 0.6:
+        # token-aligned span: 1-8 consecutive tokens (words, space runs, parentheses, '$')
+        import re as _re
+
+        toks = [(m.start(), m.end()) for m in _re.finditer(r"\s+|[()$]|[^\s()$]+", s)]
+        a = r.randrange(0, len(toks))
+        b = min(len(toks), a + r.choice([1, 2, 3, 4, 5, 6, 8]))
+        i, j = toks[a][0], toks[b - 1][1]
+    else:
+        i = r.randrange(0, L)
+        w = r.choice([1, 1, 2, 2, 3, 4, 6])
+        j = min(L, i + w)
     span = s[i:j]
     mode = r.choice(["truncate", "illegal", "delete-next-delim", "keep"])
     if isinstance(s, str):
